@@ -1,5 +1,5 @@
 \* (D) on the model, exhaustive: 1 node, 1 pod, one dimension, every legal event order, all timestamp relations
-\* around the report interval (1, 2) and the estimation windows (none / 1 s after scheduled, none / 1 s after initialized)
+\* around the report interval (1, 2) and the estimation windows (1 s after scheduled / after initialized)
 SPECIFICATION MCSpec
 CONSTANTS
   Dims = {"cpu"}
@@ -7,11 +7,12 @@ CONSTANTS
   PodNames = {"p1"}
   ReqVals = {0, 1, 3}
   UsageVals = {0, 2}
-  Times = {0, 1, 2, 3}
+  Times = {0, 1, 2}
   RIs = {1, 2}
-  MaxClock = 3
-  MCEstScheds <- OptSec1
-  MCEstInits <- OptSec1
+  MaxClock = 2
+  MCEstScheds <- OnlyOne
+  MCEstInits <- OnlyOne
+  MCSys = {TRUE}
   NodeChange = FALSE
 INVARIANT MembersOK
 INVARIANT NoDrift
